@@ -263,7 +263,11 @@ def load_known():
 def run_check(prop, tier, repo=REPO, write_evidence=True, quiet=False):
     t0 = time.time()
     seed = int(os.environ.get("VERIF_SEED", "0") or 0)
-    mod = importlib.import_module("props." + prop.lower())
+    try:
+        mod = importlib.import_module("props." + prop.lower())
+    except Exception as e:     # a broken rule module is a broken check, not a verdict
+        sys.stderr.write("check %s is broken: cannot load rules/props/%s.py: %r\n" % (prop, prop.lower(), e))
+        raise SystemExit(2)
     ctx = Ctx(prop, tier, repo)
     rep = engine.Report(prop)
     try:
@@ -272,6 +276,12 @@ def run_check(prop, tier, repo=REPO, write_evidence=True, quiet=False):
         rep.anchor_missing("ANCHOR", str(e))
     except ExtractionFailed as e:
         rep.anchor_missing("EXTRACT", str(e))
+    except (KeyError, IndexError, AttributeError, TypeError, ValueError) as e:
+        # a rule lost its footing on this tree (an anchor it indexes is gone): fail closed with a diagnosable report
+        import traceback
+        tb = traceback.extract_tb(e.__traceback__)[-1]
+        rep.anchor_missing("ANCHOR", "rule crashed at %s:%s (%s: %s) — an anchor the rule relies on is missing on this tree" % (
+            os.path.basename(tb.filename), tb.lineno, type(e).__name__, str(e)[:120]))
     known, _fixed = load_known()
     viol, kf = [], []
     for inst in rep.instances:
